@@ -394,12 +394,14 @@ End ByClass.
 
 (* executable: keep decision of one transformer on one raw column, computed in Q; None = not computable in Q
    (or ValueError / empty column) *)
+Definition keepQ_parsed (e : expr) (xs : list (gval Q)) : option bool :=
+  match all_some (map (fun x => denQ e xs x) xs) with
+  | None => None
+  | Some vs => Some (keep_by (gsame OpsQ) (@gisnan Q) vs)
+  end.
+
 Definition keepQ (e : expr) (cells : list str) : option bool :=
   match parse_column OpsQ cells with
   | None => None
-  | Some xs =>
-      match all_some (map (fun x => denQ e xs x) xs) with
-      | None => None
-      | Some vs => Some (keep_by (gsame OpsQ) (@gisnan Q) vs)
-      end
+  | Some xs => keepQ_parsed e xs
   end.
